@@ -10,7 +10,7 @@ The oracle evaluates the sentence of the property on the implementation alone: a
 fixed-count evolution of the same length, until_fixed_point ends at the first repeat."""
 import numpy as np
 from harness.driver import call_impl, cz, cnat, cbool, czlist, cgrid, chist, clist, cres
-from harness.twins import make_rule, coq_rule_spec, PredLt, PredScript, PredLogged
+from harness.twins import make_rule, coq_rule_spec, PredLt, PredScript, PredLogged, dress, dress_pred, RULE_DRESSINGS, PRED_DRESSINGS, unmasked2
 
 ID = 'C06'
 COQ_IMPORTS = ('From CPL Require Import Model.Base Model.Rules Model.Engine Model.Evolve1D Model.Evolve2D Corr.C06.\n'
@@ -56,8 +56,22 @@ class _Sim:
     def __init__(self, c):
         self.c, self.i = c, 0
 
+    def cast(self, v):
+        st = self.c.get('store')
+        if not st or st[0] == 'id':
+            return v
+        if st[0] == 'bool':
+            return 1 if v != 0 else 0
+        q = abs(v) // st[1]                  # truncation toward zero
+        return q if v >= 0 else -q
+
     def val(self, n, cidx, t):
+        return self.cast(self.raw(n, cidx, t))
+
+    def raw(self, n, cidx, t):
         ru = self.c['rule']
+        if ru['fam'] == 'affc':
+            return ru['a'] * n[len(n) // 2] + ru['b']      # the centre is the middle entry (Moore and von Neumann)
         if ru['fam'] == 'script':
             v = ru['vs'][self.i] if self.i < len(ru['vs']) else 0
             self.i += 1
@@ -187,6 +201,13 @@ def generate(rng, tier):
         if rng.random() < 0.25:      # the same automaton under the other predicates
             tag, pred = rng.choice(_preds(rng, tier)[:4])
             yield dict(c, kind='dyadic/%dd/%s' % (c['dim'], tag), pred=pred)
+    # round 5: callables of another shape, casts at a fixed point, complex / object automata
+    for c in dressed_cases(rng, tier):
+        yield c
+    for c in cast_cases(rng, tier):
+        yield c
+    for c in dtype_cases(rng, tier):
+        yield c
     # random larger ones
     n_rand = 200 if tier == 'quick' else 3000
     for _ in range(n_rand):
@@ -209,6 +230,94 @@ def generate(rng, tier):
         if c is not None:
             yield c
 
+
+
+SPREAD = [(1, False, 'script'), (1, True, 'lt'), (1, 'recursive', 'ufp'), (2, False, 'ufp'), (2, True, 'script'),
+          (2, 'recursive', 'lt'), (1, False, 'ufp'), (2, False, 'lt')]
+
+
+def _spread_case(rng, kind, j, **extra):
+    dim, memo, pk = SPREAD[j % len(SPREAD)]
+    pred = {'script': {'kind': 'script', 'bs': [True] * rng.randint(1, 3) + [False]},
+            'lt': {'kind': 'lt', 'k': rng.randint(1, 4)}, 'ufp': {'kind': 'ufp'}}[pk]
+    shape, r, nb = (rng.randint(2, 5), 1, '-') if dim == 1 else ((rng.randint(1, 3), rng.randint(1, 3)), 1,
+                                                                  rng.choice(['Moore', 'von Neumann']))
+    fam = 'lin' if memo is not False else rng.choice(['lin', 'linct', 'script'])
+    c = _mk(rng, '%s/%dd/%s/%s' % (kind, dim, pk, 'memo' if memo else 'plain'), dim, shape, r, nb, rng.randint(1, 3),
+            rng.choice(DTYPES), fam, memo, pred)
+    return None if c is None else dict(c, **extra)
+
+
+def dressed_cases(rng, tier):
+    """buckets dress/<how>/... (the rule callable) and pdress/<how>/... (the predicate callable): same behaviour,
+    another shape of callable / of returned value; the dressing is outermost; the model ignores it"""
+    per = 6 if tier == 'quick' else 24
+    for how in RULE_DRESSINGS:
+        for j in range(per):
+            c = _spread_case(rng, 'dress/' + how, j, dress=how)
+            if c is not None:
+                yield c
+    for how in PRED_DRESSINGS:
+        for j in range(per + 2):
+            c = _spread_case(rng, 'pdress/' + how, j, pdress=how)
+            if c is not None:
+                yield c
+
+
+def cast_cases(rng, tier):
+    """bucket fixedpoint/cast/...: cpl.until_fixed_point() handed over DIRECTLY; the rule's result is not a value
+    of the dtype (a float into an int automaton: truncated; a count into a bool automaton: non-zero), and the cast
+    maps it back onto the current cell at the fixed point of the STORED history, where the run must stop"""
+    n = 72 if tier == 'quick' else 600
+    made = 0
+    for i in range(8 * n):
+        if made >= n:
+            break
+        dim = 1 + i % 2
+        memo = MEMOS[(i // 2) % 3]
+        variant = (i // 6) % 4
+        shape, r, nb = (rng.randint(1, 5), 1, '-') if dim == 1 else ((rng.randint(1, 3), rng.randint(1, 3)), 1,
+                                                                      rng.choice(['Moore', 'von Neumann']))
+        nw = 3 if dim == 1 else len(_vn_offsets(r, nb))
+        if variant == 0:        # centre + 0.5 on an int automaton: at a fixed point from the start
+            rule, store, dtype = {'fam': 'affc', 'a': 2, 'b': 1}, ['quot', 2], rng.choice(['int32', 'int64', 'uint8'])
+        elif variant == 1:      # centre + b/4
+            rule, store, dtype = {'fam': 'affc', 'a': 4, 'b': rng.randint(1, 3)}, ['quot', 4], rng.choice(['int32', 'int64'])
+        elif variant == 2:      # neighbour counts on a bool automaton
+            rule, store, dtype = {'fam': 'lin', 'ws': [rng.randint(0, 2) for _ in range(nw)], 'm': 101}, ['bool'], 'bool'
+        else:                   # (weighted sum mod m) / 2 on an int automaton
+            rule = {'fam': 'lin', 'ws': [rng.randint(0, 2) for _ in range(nw)], 'm': rng.choice([4, 6, 8])}
+            store, dtype = ['quot', 2], rng.choice(['int32', 'int64', 'uint8'])
+        hi = 1 if dtype == 'bool' else 3
+        hist = [rand_state(rng, dim, shape, 'uint8', hi=hi) for _ in range(rng.randint(1, 3))]
+        c = {'kind': 'fixedpoint/cast/%dd/%s/%s' % (dim, ['half', 'quarter', 'boolcount', 'halfsum'][variant],
+                                                    'memo' if memo else 'plain'),
+             'dim': dim, 'r': r, 'nb': nb, 'dtype': dtype, 'memo': memo, 'pred': {'kind': 'ufp'}, 'direct': True,
+             'store': store, 'hist': hist, 'rule': rule}
+        k = steps_to_repeat(c, bound=8)
+        if k is None:
+            continue
+        made += 1
+        yield c
+
+
+def dtype_cases(rng, tier):
+    """buckets dtype/complex64|complex128|object/...: cells with integer real part and zero imaginary part (read by
+    this file's own Cplx reader), and object arrays of small Python ints"""
+    per = 2 if tier == 'quick' else 10
+    for dtype in ('complex64', 'complex128', 'object'):
+        for dim in (1, 2):
+            for memo in MEMOS:
+                for pk in ('lt', 'ufp', 'script'):
+                    for _ in range(per if pk != 'script' else 1):
+                        pred = {'script': {'kind': 'script', 'bs': [True, True, False]},
+                                'lt': {'kind': 'lt', 'k': rng.randint(1, 4)}, 'ufp': {'kind': 'ufp'}}[pk]
+                        shape, r, nb = (rng.randint(2, 5), 1, '-') if dim == 1 else \
+                            ((rng.randint(1, 3), rng.randint(1, 3)), 1, rng.choice(['Moore', 'von Neumann']))
+                        c = _mk(rng, 'dtype/%s/%dd/%s/%s' % (dtype, dim, pk, 'memo' if memo else 'plain'), dim, shape, r,
+                                nb, rng.randint(1, 3), dtype, 'lin', memo, pred)
+                        if c is not None:
+                            yield c
 
 
 # ---------------------------------------------------------------- dyadic float automata
@@ -266,10 +375,74 @@ def build_ca(c):
     return ca
 
 
-def build_rule(c):
+class Cplx:
+    """runs an integer twin on a complex automaton whose cells have imaginary part 0: the neighbourhood is read
+    as x.real (int() of a complex raises, so twins.exact_int cannot be used); the int result is stored as v+0j"""
+    def __init__(self, f):
+        self.f = f
+
+    def __call__(self, n, c, t):
+        if isinstance(n, np.ma.MaskedArray):
+            assert (n.data.imag == 0).all(), 'non-zero imaginary part'
+            nn = np.ma.array(n.data.real.astype(np.int64), mask=np.ma.getmaskarray(n))
+        else:
+            a = np.asarray(n)
+            assert (a.imag == 0).all(), 'non-zero imaginary part'
+            nn = a.real.astype(np.int64)
+        return self.f(nn, c, t)
+
+
+class AffC:
+    """a * centre + b (twin of Corr/C06.v RAffC)"""
+    def __init__(self, a, b, dim):
+        self.a, self.b, self.dim = a, b, dim
+
+    def __call__(self, n, c, t):
+        d = n.data if isinstance(n, np.ma.MaskedArray) else np.asarray(n)
+        v = d[len(d) // 2] if self.dim == 1 else d[d.shape[0] // 2][d.shape[1] // 2]
+        return self.a * int(v) + self.b
+
+
+class Over:
+    """f / scale as a Python float (scale is a power of two: exact)"""
+    def __init__(self, f, scale):
+        self.f, self.scale = f, scale
+
+    def __call__(self, n, c, t):
+        return self.f(n, c, t) / float(self.scale)
+
+
+class Budget:
+    """a rule that refuses to be called more than `limit` times: ends a run that should have stopped"""
+    def __init__(self, f, limit):
+        self.f, self.limit, self.n = f, limit, 0
+
+    def __call__(self, n, c, t):
+        self.n += 1
+        if self.n > self.limit:
+            raise RuntimeError('rule called more than %d times: the evolution did not stop' % self.limit)
+        return self.f(n, c, t)
+
+
+def build_rule(c, dressed=True):
     ru = c['rule']
-    f = CapInc(ru['cap'], c['dim']) if ru['fam'] == 'capinc' else make_rule(ru, c['dim'])
-    return f if c.get('base') is None else Dyadic(f, c['base'])
+    if ru['fam'] == 'capinc':
+        f = CapInc(ru['cap'], c['dim'])
+    elif ru['fam'] == 'affc':
+        f = AffC(ru['a'], ru['b'], c['dim'])
+    else:
+        f = make_rule(ru, c['dim'])
+    if str(c['dtype']).startswith('complex'):
+        f = Cplx(f)
+    if c.get('base') is not None:
+        f = Dyadic(f, c['base'])
+    st = c.get('store')
+    if st and st[0] == 'quot':
+        f = Over(f, st[1])
+    if c.get('direct'):
+        ncells = int(np.prod(np.asarray(c['hist']).shape[1:]))
+        f = Budget(f, 30 * ncells)
+    return dress(f, c.get('dress')) if dressed else f      # the dressing is OUTERMOST
 
 
 def conv(c, a):
@@ -283,6 +456,8 @@ def conv(c, a):
 def coq_rspec(ru):
     if ru['fam'] == 'capinc':
         return '(RCap %s)' % cz(ru['cap'])
+    if ru['fam'] == 'affc':
+        return '(RAffC %s %s)' % (cz(ru['a']), cz(ru['b']))
     return '(RS %s)' % coq_rule_spec(ru)
 
 
@@ -410,6 +585,10 @@ def ints(x):
         return None if any(y is None for y in r) else r
     if isinstance(x, bool):
         return int(x)
+    if isinstance(x, complex):      # complex automata: this file's own reader (int() of a complex raises)
+        if x.imag != 0:
+            return None
+        x = x.real
     if x != x or x in (float('inf'), float('-inf')) or x != int(x):
         return None
     return int(x)
@@ -436,8 +615,15 @@ def run_impl(c):
     if c.get('finding') == 'cast-path':
         return _run_outofrange(cpl, c)
     ca = build_ca(c)
+    if c.get('direct'):
+        res = call_impl(lambda: call_evolve(cpl, c, ca, cpl.until_fixed_point(), build_rule(c)))
+        if res[0] != 'ok':
+            return list(res)
+        out = np.asarray(res[1])
+        return ['ok', {'out': conv(c, out), 'shape': [int(x) for x in out.shape], 'dtype': str(out.dtype),
+                       'after': conv(c, ca), 'fresh': bool(not np.shares_memory(out, ca))}]
     pred = make_pred(cpl, c['pred'], c.get('pmode'))
-    res = call_impl(lambda: call_evolve(cpl, c, ca, pred, build_rule(c)))
+    res = call_impl(lambda: call_evolve(cpl, c, ca, dress_pred(pred, c.get('pdress')), build_rule(c)))
     if res[0] != 'ok':
         return list(res)
     out = np.asarray(res[1])
@@ -475,6 +661,15 @@ def to_coq(c, obs):
         return 'CSkip'          # nothing compared in Coq: the model has one cast, the code has two
     one = c['dim'] == 1
     carr = cgrid if one else chist
+    if c.get('direct'):
+        st = c.get('store') or ['id']
+        cst = {'id': 'StId', 'bool': 'StBool'}.get(st[0]) or '(StQuot %s)' % cz(st[1])
+        o = '(Raise OtherError)' if (obs[0] == 'ok' and obs[1]['out'] is None) else \
+            ('(Ok %s)' % carr(obs[1]['out']) if obs[0] == 'ok' else cres(obs, str))
+        if one:
+            return '(C1D %s %s %s %s %s)' % (coq_rspec(c['rule']), cst, cnat(c['r']), cgrid(c['hist']), o)
+        return '(C2D %s %s %s %s %s %s)' % (coq_rspec(c['rule']), cst, cnat(c['r']),
+                                            'Moore' if c['nb'] == 'Moore' else 'VonNeumann', chist(c['hist']), o)
     if obs[0] == 'ok' and not _wellformed(c, obs[1]):
         o = '(Raise OtherError)'
     elif obs[0] == 'ok':
@@ -491,6 +686,8 @@ def to_coq(c, obs):
 def nontrivial(c, obs):
     if c.get('finding'):
         return False
+    if c.get('direct'):
+        return obs[0] == 'ok'
     return obs[0] == 'ok' and len(obs[1]['plog']) >= 2
 
 
@@ -511,6 +708,24 @@ def oracle(c, obs):
         return "the result shares memory with the caller's array"
     if not o.get('retained_ok', True):
         return 'an array handed to the predicate changed after the predicate returned'
+    if c.get('direct'):
+        out, H = o['out'], len(c['hist'])
+        if out is None:
+            return 'the result is not integer-valued'
+        if out[:H] != c['hist']:
+            return 'the result does not start with the given history'
+        if o['dtype'] != c['dtype']:
+            return 'dtype changed from %s to %s' % (c['dtype'], o['dtype'])
+        states = out[H - 1:]
+        if len(states) < 2:
+            return 'until_fixed_point performed no step'
+        if states[-1] != states[-2]:
+            return 'until_fixed_point: the last two rows differ'
+        for j in range(1, len(states) - 1):
+            if states[j] == states[j - 1]:
+                return ('until_fixed_point: stored states %d and %d of this call are already equal, the evolution '
+                        'should have stopped there' % (j - 1, j))
+        return None
     if not _wellformed(c, o):
         return 'the result or a predicate argument is not an integer-valued array of the expected rank'
     plog, out, hist = o['plog'], o['out'], c['hist']
